@@ -10,4 +10,6 @@ python3-vt -m mirsym.conformance $W/mir/mir.txt $W/crate > $W/conformance.log 2>
 tail -1 $W/conformance.log
 # native replay harness (repository toolchain); failure here only disables native replay, it does not fail setup
 (cd $W/crate && RUSTFLAGS="--cfg undermoon_verif_replay -Awarnings" cargo +stable test --offline --lib --no-run --target-dir $W/target-replay > $W/replay-build.log 2>&1) || echo "replay build failed (see $W/replay-build.log)"
+# Kani build of the overlay crate (dependencies + one cheap harness) so that the K checks start warm
+(cd $W/crate && cargo kani --harness hash_tag_vacuity_witness --target-dir $W/target-kani --output-format terse -Z stubbing -Z unstable-options --harness-timeout 300s > $W/kani-build.log 2>&1) || true
 echo setup done
